@@ -166,7 +166,7 @@ class Slot:
         shutil.rmtree(self.dir, ignore_errors=True)
 
 
-def run_mutant(slot, m, seed):
+def run_mutant(slot, m, seed, checks=None, skip_tests=False):
     slot.reset()
     if "patch" in m:
         rc, out = sh("git apply %s" % m["patch"], slot.repo, 60)
@@ -185,7 +185,7 @@ def run_mutant(slot, m, seed):
         res["status"] = "compile_error"
         slot.reset()
         return res
-    rc, out = sh("timeout 600 cargo test --workspace --no-fail-fast --offline", slot.repo, 900, slot.env)
+    rc, out = (0, "") if skip_tests else sh("timeout 600 cargo test --workspace --no-fail-fast --offline", slot.repo, 900, slot.env)
     if rc != 0:
         failed = re.findall(r"^test (\S+) \.\.\. FAILED", out, re.M)
         res["status"] = "killed_by_tests"
@@ -197,10 +197,13 @@ def run_mutant(slot, m, seed):
     env = dict(slot.env)
     env.pop("CARGO_TARGET_DIR")
     env["VERIF_SEED"] = str(seed)
-    for c in PROPS:
+    nviol = {}
+    for c in (checks or PROPS):
         rc, out = sh("./check %s quick" % c, slot.verif, 1200, env)
         if rc == 1 and "VIOLATION property=" in out:
             caught.append(c)
+            mv = re.search(r"violations=(\d+)", out)
+            nviol[c] = int(mv.group(1)) if mv else out.count("VIOLATION property=")
             mon = re.findall(r"monitor=(\S+)", out)
             detail[c] = sorted(set(mon))[:4]
         elif rc != 0:
@@ -208,6 +211,7 @@ def run_mutant(slot, m, seed):
     res["status"] = "caught" if caught else "survived"
     res["caught_by"] = caught
     res["monitors"] = detail
+    res["violations"] = nviol
     if harness:
         res["harness_failures"] = harness
     res["seconds"] = round(time.time() - t0)
@@ -224,7 +228,7 @@ def recheck_seeded(a):
         pth = os.path.join(sd, d, "patch.diff")
         if os.path.exists(pth):
             todo.append({"id": d, "patch": pth, "file": d, "line": 0, "op": "seeded", "col": 0})
-    outp = os.path.join(a.out, "seeded_recheck.jsonl")
+    outp = os.path.join(a.out, "seeded_recheck.jsonl" if not a.own_only else "seeded_own_seed%d.jsonl" % a.seed)
     open(outp, "w").close()
     lock = threading.Lock()
     it = iter(todo)
@@ -237,11 +241,14 @@ def recheck_seeded(a):
                     m = next(it, None)
                 if m is None:
                     break
+                own = m["id"].split("-")[0]
+                mp = os.path.join(sd, m["id"], "meta.json")
+                if os.path.exists(mp):
+                    own = json.load(open(mp)).get("breaks_property", own)
                 try:
-                    r = run_mutant(slot, m, a.seed)
+                    r = run_mutant(slot, m, a.seed, [own], True) if a.own_only else run_mutant(slot, m, a.seed)
                 except Exception as e:
                     r = dict(m, status="harness_error", error=str(e))
-                own = m["id"].split("-")[0]
                 r["caught_by_owning_check"] = own in r.get("caught_by", [])
                 with lock:
                     with open(outp, "a") as fh:
@@ -269,6 +276,7 @@ def main():
     ap.add_argument("--ops", default="", help="only these operators (comma separated)")
     ap.add_argument("--cap", type=int, default=0, help="at most this many mutants per (file, operator); default count/25")
     ap.add_argument("--root", default="/tmp/msweep")
+    ap.add_argument("--own-only", action="store_true", help="with --seeded: only the owning property's check, repository tests skipped (detection at another seed)")
     ap.add_argument("--seeded", action="store_true", help="re-check the hand-made seeded changes of /verif/seeded instead of sampling mechanical mutants")
     a = ap.parse_args()
     os.makedirs(a.out, exist_ok=True)
